@@ -76,6 +76,25 @@ def gen_cases(tier, seed):
         else:
             B = sorted({rnd.randint(0, hi) for _ in range(lb)})
         cases.append({"kind": "kernel", "op": rnd.choice(["inter", "union", "diff"]), "A": A, "B": B})
+    # structured long inputs aimed at block-wise / galloping merge optimisations: a dense run against single elements
+    # (and short lists) that sit exactly at, just before and just after block boundaries of every power-of-two size
+    base0 = rnd.choice([0, 7, 1000])
+    for length in ((70, 131, 300) if tier == "quick" else (65, 70, 129, 131, 257, 300, 520)):
+        dense = list(range(base0, base0 + length))
+        picks = set()
+        for bs in (4, 8, 16, 32, 64, 128, 256):
+            for k in range(1, length // bs + 1):
+                for d in (-1, 0, 1):
+                    if 0 <= k * bs + d < length:
+                        picks.add(k * bs + d)
+        picks = sorted(picks)
+        sparse_sets = [[dense[q]] for q in picks] + [[dense[q] for q in picks[i::7]] for i in range(7)]
+        if tier == "quick":
+            sparse_sets = sparse_sets[:: 2]
+        for sp in sparse_sets:
+            for op in ("inter", "union", "diff"):
+                cases.append({"kind": "kernel", "op": op, "A": dense, "B": sp})
+                cases.append({"kind": "kernel", "op": op, "A": sp, "B": dense})
     for _ in range(n // 4):
         k = rnd.randint(0, 6)
         hi = rnd.choice([20, 300, M32])
